@@ -200,6 +200,7 @@ class AbstractMissingStream:
     __slots__ = ('_source', '_sink')
     line = 'Stream'
     ID = 'missing stream'
+    price = F_mass = 0 # Required for filtering streams and sorting in network
     disconnect_source = AbstractStream.disconnect_source
     disconnect_sink = AbstractStream.disconnect_sink
     disconnect = AbstractStream.disconnect
